@@ -872,7 +872,7 @@ def run(tier, seed, reg=None):
                      f"{len(OPS_LS_CORE)}")
     else:
         nmax, npat, ks = 6, 2, (1, 2, 3, None)
-        call_faults += [("call", 3, st) for st in (False, True)]
+        call_faults += [("call", 3, True)]
         sq = list(itertools.product(OPS_LS_FULL, repeat=3))
         seq_words = f"every sequence of 1..3 operations out of {len(OPS_LS_FULL)}"
     cfgs = ls_configs(nmax, npat, ks, call_faults)
@@ -906,7 +906,7 @@ def run(tier, seed, reg=None):
         allops = OPS_LS_FULL + OPS_LS_BIG
         items = []
         seen = set()
-        for _ in range(400000):
+        for _ in range(300000):
             n = r.randint(0, 40)
             data = bytes(r.choice(b"ab\n\r\x00\xffxyz") for _ in range(n))
             k = r.choice((1, 2, 3, 5, 7, None))
@@ -922,7 +922,7 @@ def run(tier, seed, reg=None):
             jobs.append(("lsr", ch, None))
         wops = OPS_WRAP_BUF + (("read", 9), ("readinto", 11), ("read1", 30))
         items = []
-        for _ in range(300000):
+        for _ in range(200000):
             n = r.randint(0, 40)
             data = bytes(r.choice(b"ab\n\r\x00\xffxyz") for _ in range(n))
             k = r.choice((1, 2, 3, 5, 7, None))
